@@ -52,27 +52,68 @@ package agent
 //@   ensures [C15 limit_reaches_the_scheduler] sc.maxActiveRuns == a.dag.MaxActiveRuns
 //@   ensures sc.canceled == 0 && sc.timeout == a.dag.Timeout && !wasAllocated(sc)
 
-// Retry graphs are specified with C10; here only what Run needs from them.
+//@ fn New(requestID, workflow, lg, logDir, logFile, cli, dataStore, opts) (a)
+//@   props C03 C10 C16
+//@   modifies heap(alloc)
+//@   ensures a != nil && !wasAllocated(a) && a.requestID == requestID && a.dag == workflow && a.dry == opts.Dry && a.retryTarget == opts.RetryTarget &&
+//@        a.logger == lg && a.client == cli && a.dataStore == dataStore && a.logDir == logDir && a.logFile == logFile
+
+// Retry (C10): the graph of a retry is built from the recorded node table of the run being retried — one scheduler
+// node per record, in order, with the recorded step and state — and from nothing else (not from the DAG file).
+//@ pred retry_target_ok(a *Agent) = a.retryTarget != nil ==>
+//@      (a.logger != nil && (forall i int :: 0 <= i && i < len(a.retryTarget.Nodes) ==> a.retryTarget.Nodes[i] != nil))
 //@ fn (*Agent).setupGraphForRetry(a) (err)
 //@   props C10 C14
-//@   trusted
-//@   modifies a.graph, heap(alloc), scheduler.nextNodeID, ghost obs.cycle, ghost obs.cycle_calls, ghost eff.env, ghost env.key, ghost env.val
+//@   requires a.retryTarget != nil && retry_target_ok(a) && scheduler.nextNodeID > 0
+//@   modifies a.graph, heap(alloc), scheduler.nextNodeID, ghost obs.cycle, ghost obs.cycle_calls, ghost eff.env, ghost env.key, ghost env.val,
+//@            ghost outvar.stores, ghost outvar.key, ghost outvar.val, ghost rerun, heap(scheduler.Node)
 //@   ensures err == nil ==> (a.graph != nil && graph_ok(a.graph))
+//@   ensures [C10 retry_graph_is_the_recorded_node_table] err == nil ==> (len(a.graph.nodes) == len(a.retryTarget.Nodes) &&
+//@        (forall i int :: 0 <= i && i < len(a.retryTarget.Nodes) ==>
+//@           (a.graph.nodes[i].data.Step.Name == a.retryTarget.Nodes[i].Step.Name &&
+//@            a.graph.nodes[i].data.Step.Command == a.retryTarget.Nodes[i].Step.Command &&
+//@            a.graph.nodes[i].data.Step.CmdWithArgs == a.retryTarget.Nodes[i].Step.CmdWithArgs &&
+//@            a.graph.nodes[i].data.Step.Args == a.retryTarget.Nodes[i].Step.Args &&
+//@            a.graph.nodes[i].data.Step.Script == a.retryTarget.Nodes[i].Step.Script &&
+//@            a.graph.nodes[i].data.Step.Depends == a.retryTarget.Nodes[i].Step.Depends)))
+//@   ensures [C10 finished_steps_keep_their_recorded_result] err == nil ==> (forall i int :: 0 <= i && i < len(a.retryTarget.Nodes) ==>
+//@        (!rerun[a.graph.nodes[i].id] ==> (a.graph.nodes[i].data.State.Status == a.retryTarget.Nodes[i].Status &&
+//@            a.graph.nodes[i].data.State.RetryCount == a.retryTarget.Nodes[i].RetryCount && a.graph.nodes[i].data.State.Log == a.retryTarget.Nodes[i].Log)))
+//@   ensures [C10 unfinished_steps_and_their_descendants_are_reset] err == nil ==> (forall k int :: has(a.graph.dict, k) && rerun[k] ==>
+//@        (a.graph.dict[k].data.State.Status == scheduler.NodeStatusNone &&
+//@         (forall j int :: 0 <= j && j < len(a.graph.from[k]) ==> rerun[a.graph.from[k][j]])))
+//@   ensures [C10 nothing_finished_is_rerun_without_cause] err == nil ==> (forall i int :: 0 <= i && i < len(a.retryTarget.Nodes) && rerun[a.graph.nodes[i].id] ==>
+//@        (needs_rerun(a.retryTarget.Nodes[i].Status) ||
+//@         (exists p int, j int :: has(a.graph.dict, p) && rerun[p] && 0 <= j && j < len(a.graph.from[p]) && a.graph.from[p][j] == a.graph.nodes[i].id)))
+//@   assert before dag/scheduler.NewExecutionGraphForRetry [C10 retry_graph_is_built_from_the_recorded_nodes]
+//@        len(arg1) == len(a.retryTarget.Nodes) && (forall i int :: 0 <= i && i < len(arg1) ==>
+//@           (arg1[i] != nil && arg1[i].data.Step == a.retryTarget.Nodes[i].Step && arg1[i].data.State.Status == a.retryTarget.Nodes[i].Status))
+//@   loop 0 modifies heap(alloc)
+//@   loop 0 invariant len(nodes) == idx + 1
+//@   loop 0 invariant forall i int :: 0 <= i && i <= idx ==>
+//@        (nodes[i] != nil && allocated(nodes[i]) && !wasAllocated(nodes[i]) && nodes[i].id == 0 && nodes[i].data.Step == a.retryTarget.Nodes[i].Step &&
+//@         nodes[i].data.State.Status == a.retryTarget.Nodes[i].Status && nodes[i].data.State.RetryCount == a.retryTarget.Nodes[i].RetryCount &&
+//@         nodes[i].data.State.Log == a.retryTarget.Nodes[i].Log)
+//@   loop 0 invariant forall i int, j int :: 0 <= i && i < j && j <= idx ==> nodes[i] != nodes[j]
 
 //@ fn (*Agent).setupGraph(a) (err)
 //@   props C14 C10
-//@   requires a.dag != nil && scheduler.nextNodeID > 0
-//@   modifies a.graph, heap(alloc), scheduler.nextNodeID, ghost obs.cycle, ghost obs.cycle_calls, ghost eff.env, ghost env.key, ghost env.val
+//@   requires a.dag != nil && scheduler.nextNodeID > 0 && retry_target_ok(a)
+//@   modifies a.graph, heap(alloc), scheduler.nextNodeID, ghost obs.cycle, ghost obs.cycle_calls, ghost eff.env, ghost env.key, ghost env.val,
+//@            ghost outvar.stores, ghost outvar.key, ghost outvar.val, ghost rerun, heap(scheduler.Node)
 //@   ensures [C14 accepted_only_after_cycle_check] old(a.retryTarget) == nil && err == nil ==> (obs.cycle_calls == old(obs.cycle_calls) + 1 && !obs.cycle)
-//@   ensures err == nil ==> (a.graph != nil && graph_ok(a.graph))
+//@   ensures [graph_nodes_exist] err == nil ==> (a.graph != nil && nodes_wf(a.graph))
+//@   ensures [graph_edges_point_to_nodes] err == nil ==> graph_wf(a.graph)
+//@   ensures [graph_nodes_are_indexed] err == nil ==> (forall i int :: 0 <= i && i < len(a.graph.nodes) ==> has(a.graph.dict, a.graph.nodes[i].id))
 
 //@ pred graph_ok(g *scheduler.ExecutionGraph) = nodes_wf(g) && graph_wf(g) &&
 //@      (forall i int :: 0 <= i && i < len(g.nodes) ==> has(g.dict, g.nodes[i].id))
 
 //@ fn (*Agent).setup(a) (err)
 //@   props C03 C04 C14 C16
-//@   requires a.dag != nil && scheduler.nextNodeID > 0
-//@   modifies a.scheduler, a.reporter, a.graph, heap(alloc), scheduler.nextNodeID, ghost obs.cycle, ghost obs.cycle_calls, ghost eff.env, ghost env.key, ghost env.val
+//@   requires a.dag != nil && scheduler.nextNodeID > 0 && retry_target_ok(a)
+//@   modifies a.scheduler, a.reporter, a.graph, heap(alloc), scheduler.nextNodeID, ghost obs.cycle, ghost obs.cycle_calls, ghost eff.env, ghost env.key, ghost env.val,
+//@            ghost outvar.stores, ghost outvar.key, ghost outvar.val, ghost rerun, heap(scheduler.Node)
 //@   records obs.agent_setup_err = err
 //@   ensures [C14 accepted_only_after_cycle_check] old(a.retryTarget) == nil && err == nil ==> (obs.cycle_calls == old(obs.cycle_calls) + 1 && !obs.cycle)
 //@   ensures [C03 scheduler_inherits_dry_flag] err == nil ==> (a.scheduler != nil && a.scheduler.dry == a.dry && a.scheduler.canceled == 0)
@@ -138,7 +179,7 @@ package agent
 
 //@ fn (*Agent).Run(a, ctx) (err)
 //@   props C03 C04 C08 C14 C16
-//@   requires a.dag != nil && a.client != nil && a.dataStore != nil && scheduler.nextNodeID > 0
+//@   requires a.dag != nil && a.client != nil && a.dataStore != nil && scheduler.nextNodeID > 0 && retry_target_ok(a)
 //@   modifies *
 //@   expect calls (*dag/scheduler.Scheduler).Schedule >= 1
 //@   expect calls (*Agent).checkIsAlreadyRunning >= 1
